@@ -1,10 +1,16 @@
 // Harness for C18 (generation is deterministic and idempotent).
 //
-//	-mode gen  -dir <project> [-start <subdir>]   run the REAL generator the way the gqlgen CLI does: chdir to
-//	           <project>/<start>, config.LoadConfigFromDefaultLocations() (walks up to gqlgen.yml and chdirs there),
-//	           api.Generate + plugin/stubgen. One process per run: fresh map seed, GOMAXPROCS from the environment.
+//	-mode gen  -dir <project> [-start <subdir>] [-cfg search|rel|dotrel|abs]
+//	           run the REAL generator the way the gqlgen CLI does. The caller STARTS this process in <project>/<start>
+//	           (the harness refuses to run otherwise: a chdir made after process start is not the same thing - package
+//	           level initialisers have already run); -cfg search = `gqlgen generate`:
+//	           config.LoadConfigFromDefaultLocations() (walks up to gqlgen.yml and chdirs there); rel / dotrel / abs =
+//	           `gqlgen generate -c gqlgen.yml | ./gqlgen.yml | <abs>/gqlgen.yml`: config.LoadConfig(<that>), no chdir
+//	           (only from the project root: an explicitly named config does not move the generator).
+//	           Then api.Generate + plugin/stubgen. One process per run: fresh map seed, GOMAXPROCS from the environment.
 //	-mode hash -dir <project>                     SHA-256 of every file under <project> (path <TAB> hash, sorted)
 //	-mode render -tplroot <dir> -fs dir|map -reps N -out <dir>     templates.Render on template sets (render.go)
+//	-mode names                                   real templates.ToGoModelName on request sequences from stdin (names.go)
 //	-mode find -dir <project> -reps N             Binder.FindObject for every bound type, N fresh binders (find.go)
 //
 // bin/check C18 runs `gen` repeatedly (separate processes, varying GOMAXPROCS, start directories, clean tree vs
@@ -27,14 +33,18 @@ import (
 	"github.com/99designs/gqlgen/plugin/stubgen"
 )
 
-func runGen(dir, start string) (code int) {
-	abs, err := filepath.Abs(dir)
-	if err != nil {
-		fmt.Fprintln(os.Stderr, err)
+// procStart is the directory this process was started in (what a package-level initialiser of the generator sees).
+var procStart, procStartErr = os.Getwd()
+
+func runGen(dir, start, cfgMode string) (code int) {
+	if !filepath.IsAbs(dir) {
+		fmt.Fprintln(os.Stderr, "CONFIG-ERROR: -dir must be absolute (the process is started inside the project)")
 		return 2
 	}
-	if err := os.Chdir(filepath.Join(abs, start)); err != nil {
-		fmt.Fprintln(os.Stderr, err)
+	abs := filepath.Clean(dir)
+	want := filepath.Join(abs, start)
+	if procStartErr != nil || procStart != want {
+		fmt.Fprintf(os.Stderr, "CONFIG-ERROR: harness must be STARTED in %s (was started in %s)\n", want, procStart)
 		return 2
 	}
 	defer func() {
@@ -43,7 +53,22 @@ func runGen(dir, start string) (code int) {
 			code = 4
 		}
 	}()
-	cfg, err := config.LoadConfigFromDefaultLocations()
+	var cfg *config.Config
+	var err error
+	switch cfgMode {
+	case "", "search":
+		cfg, err = config.LoadConfigFromDefaultLocations()
+	case "rel", "dotrel", "abs":
+		if start != "" {
+			fmt.Fprintln(os.Stderr, "CONFIG-ERROR: -cfg rel|dotrel|abs only from the project root")
+			return 2
+		}
+		name := map[string]string{"rel": "gqlgen.yml", "dotrel": "./gqlgen.yml", "abs": filepath.Join(abs, "gqlgen.yml")}[cfgMode]
+		cfg, err = config.LoadConfig(name)
+	default:
+		fmt.Fprintln(os.Stderr, "CONFIG-ERROR: unknown -cfg", cfgMode)
+		return 2
+	}
 	if err != nil {
 		fmt.Fprintln(os.Stderr, "CONFIG-ERROR:", err)
 		return 3
@@ -64,7 +89,7 @@ func runGen(dir, start string) (code int) {
 		fmt.Fprintln(os.Stderr, "GENERATE-ERROR:", err)
 		return 3
 	}
-	fmt.Printf("generated\tGOMAXPROCS=%d\tstart=%s\n", runtime.GOMAXPROCS(0), start)
+	fmt.Printf("generated\tGOMAXPROCS=%d\tstart=%s\tcfg=%s\tprocstart=%s\n", runtime.GOMAXPROCS(0), start, cfgMode, procStart)
 	return 0
 }
 
@@ -99,7 +124,8 @@ func runHash(dir string) int {
 func main() {
 	mode := flag.String("mode", "gen", "gen | hash | render | find")
 	dir := flag.String("dir", "", "project directory")
-	start := flag.String("start", "", "sub-directory of the project to start from")
+	start := flag.String("start", "", "sub-directory of the project this process was started in")
+	cfgMode := flag.String("cfg", "search", "gen: search | rel | dotrel | abs (how the config file is found)")
 	tplroot := flag.String("tplroot", "", "render: directory whose sub-directories are template sets")
 	fsMode := flag.String("fs", "dir", "render: dir | map")
 	reps := flag.Int("reps", 8, "render / find: repetitions inside this process")
@@ -107,13 +133,15 @@ func main() {
 	flag.Parse()
 	switch *mode {
 	case "gen":
-		os.Exit(runGen(*dir, *start))
+		os.Exit(runGen(*dir, *start, *cfgMode))
 	case "hash":
 		os.Exit(runHash(*dir))
 	case "render":
 		os.Exit(runRender(*tplroot, *fsMode, *out, *reps))
 	case "find":
 		os.Exit(runFind(*dir, *reps))
+	case "names":
+		os.Exit(runNames())
 	}
 	os.Exit(2)
 }
